@@ -170,6 +170,10 @@ fn has_special_floats(s: &str) -> bool {
 
 /// The oracle. Returns an outcome hash, or None if the document does not load (not a model).
 fn roundtrip(ctx: &Ctx, doc: &Value, case: &dyn Fn() -> Value) -> Option<u64> {
+    roundtrip_x(ctx, doc, case, false)
+}
+
+fn roundtrip_x(ctx: &Ctx, doc: &Value, case: &dyn Fn() -> Value, exact: bool) -> Option<u64> {
     let m: Model = serde_json::from_value(doc.clone()).ok()?;
     let dbg = format!("{:?}", m);
     if has_special_floats(&dbg) {
@@ -197,6 +201,18 @@ fn roundtrip(ctx: &Ctx, doc: &Value, case: &dyn Fn() -> Value) -> Option<u64> {
         let field = field_before(&dbg, pos);
         ctx.violation(&format!("roundtrip:field-changed:{}", field), &format!("...{} | became | ...{}", ctxt(&dbg), ctxt(&dbg2)), json!({"case": case(), "json": j1}));
         return Some(2);
+    }
+    // the document itself must come back: when no value of the document is a default (the base documents and the
+    // substitutions by non-default values), serialising the loaded model gives the same JSON value
+    if exact {
+        let v1: Value = serde_json::from_str(&j1).unwrap_or(Value::Null);
+        let mut diffs = vec![];
+        values_equal_f32(doc, &v1, "", &mut diffs);
+        if !diffs.is_empty() {
+            let field = diffs[0].split(' ').next().unwrap_or("").rsplit('.').next().unwrap_or("").split('[').next().unwrap_or("").to_string();
+            ctx.violation(&format!("load:value-lost-or-changed:{}", field), &format!("the document does not come back from load + save: {}", diffs.iter().take(3).cloned().collect::<Vec<_>>().join("; ")), json!({"case": case(), "json": j1}));
+            return Some(3);
+        }
     }
     let j2 = m2.as_json().unwrap_or_default();
     if j2 != j1 {
@@ -265,7 +281,7 @@ pub fn run(ctx: &Ctx) -> i32 {
     // the base models themselves
     for (n, d) in [("full", &full), ("compact", &compact)] {
         ctx.eval(1);
-        if roundtrip(ctx, d, &|| json!({"part": "base", "which": n})).is_some() {
+        if roundtrip_x(ctx, d, &|| json!({"part": "base", "which": n}), true).is_some() {
             loaded += 1;
         }
     }
@@ -281,7 +297,8 @@ pub fn run(ctx: &Ctx) -> i32 {
         let s = &subs[i as usize];
         let d = apply(&full, s);
         acc.n += 1;
-        if let Some(o) = roundtrip(ctx, &d, &|| json!({"part": "single-substitution", "sub": format!("{:?}", s), "doc": d})) {
+        let exact = matches!(s.what.as_str(), "ugly" | "tiny-negative" | "huge" | "0.7" | "0.2" | "3.0" | "50.0" | "ugly-string");
+        if let Some(o) = roundtrip_x(ctx, &d, &|| json!({"part": "single-substitution", "sub": format!("{:?}", s), "doc": d}), exact) {
             acc.loaded += 1;
             acc.outcomes.insert(o);
         }
@@ -452,7 +469,7 @@ pub fn run(ctx: &Ctx) -> i32 {
     ctx.nontriv(loaded);
     ctx.finish(
         "model_checking",
-        "JSON-level substitutions on a model whose every field is present and non-default (2 elements per collection, both MatProps variants, all options Some): every leaf x its type alphabet (numbers{0,0.0,1,1.0,0.1234567,-3.5e-7,1e30,0.7,0.2,3.0,50.0}, bools, strings{empty, quotes/UTF-8/escapes, every enum variant name}, ids->nil, key removed, null, arrays emptied / cut to one) singly, all ordered pairs of such substitutions on the one-element-per-collection model (every 7th pair in quick), all 2^11 x 3 patterns of absent top-level collections x extra{None,[],[x]}, all presence patterns of the lists inside cons (2^5), schedules (2^3) and overrides (2^2) with and without the rest of the model; oracle on every document that loads as a Model: from_json(as_json(m)) is Debug-identical to m and serialises to the identical text; f32 number-leaf sweep (all finite bit patterns in thorough, every 4099th in quick) through a plain field and the flatten+untagged Material path; 7 shipped files value-equal after load+save; converted corpus; non-trivial = document loads as a model",
+        "JSON-level substitutions on a model whose every field is present and non-default (2 elements per collection, both MatProps variants, all options Some): every leaf x its type alphabet (numbers{0,0.0,1,1.0,0.1234567,-3.5e-7,1e30,0.7,0.2,3.0,50.0}, bools, strings{empty, quotes/UTF-8/escapes, every enum variant name}, ids->nil, key removed, null, arrays emptied / cut to one) singly, all ordered pairs of such substitutions on the one-element-per-collection model (every 7th pair in quick), all 2^11 x 3 patterns of absent top-level collections x extra{None,[],[x]}, all presence patterns of the lists inside cons (2^5), schedules (2^3) and overrides (2^2) with and without the rest of the model; oracle on every document that loads as a Model: from_json(as_json(m)) is Debug-identical to m and serialises to the identical text, and for the base documents and substitutions by non-default values the saved JSON value equals the document that was loaded; f32 number-leaf sweep (all finite bit patterns in thorough, every 4099th in quick) through a plain field and the flatten+untagged Material path; 7 shipped files value-equal after load+save; converted corpus; non-trivial = document loads as a model",
         stride == 1,
         json!({}),
     )
